@@ -2,22 +2,22 @@
 
 Carriers: volume.py:get_volume (level names, range assert, dispatch), the closure _get_volume_frustum_cone.<locals>.leave
 (volume' = volume + the node's inclusion-exclusion share, for symbolic accuracy 1..9 and 0..3 children), and
-VolSphereFrustumConeIntersection._get_volume (modular; verified where the frustum does not taper away from the sphere).
+VolSphereFrustumConeIntersection._get_volume (modular; both taper directions, on top of C13's contract of the closed form),
+_get_volume_frustum_cone (the summation over the tree, traverse client rule).
 lemmas(): the union lemma over C13's antiderivative forms.  Rests on C13 (DEPENDS): its carriers are re-verified here.
 
-ASSUMED (listed in evidence.trusted_base): the taper half of the sphere/frustum intersection (used by the general-radii
-variants of `leave` at levels >= 3; the equal-radii variants do not use it), the Monte-Carlo volume of generic SDF objects
-(levels >= 5 with >= 2 children), the analytic worker as seen from get_volume (empty contract), the sdflit handle model.
+ASSUMED (listed in evidence.trusted_base): the Monte-Carlo volume of generic SDF objects (levels >= 5 with >= 2 children) and the
+Monte-Carlo-only worker of level 10 (sampling), the sdflit handle model.
 """
 import z3
 
 from contracts.C09 import node_obj
 from contracts import C13
-from contracts.C13 import F, G, PI, R, V_fr, V_sphere
+from contracts.C13 import F, G, PI, R, V_fr, V_sf, V_sphere, sf_split, zmin
 from contracts.common import col, nof, sym_tree
 from pyvc.lemmas import lemma as _lemma, use as _use
 from pyvc.spec import Registry
-from pyvc.values import NArr, Obj, Opaque, PList, Sym, fresh_name, to_z3
+from pyvc.values import NArr, Obj, Opaque, PList, Sym, fresh, fresh_name, to_z3
 
 VOL = "swcgeom/analysis/volume.py"
 VO = "swcgeom/utils/volumetric_object.py"
@@ -26,29 +26,9 @@ DEPENDS = ["C13"]
 
 # ---------------------------------------------------------------------------
 # spec functions (on top of C13's F, G, V_sphere, V_fr)
-def zmin(a, b):
-    return z3.If(a <= b, a, b)
-
-
 def V_fr_tot(r1, r2, h):
     """frustum of height h >= 0 (a degenerate frustum, h = 0, has volume 0)"""
     return z3.If(h > 0, V_fr(r1, r2, h), z3.RealVal(0))
-
-
-def sf_split(r1, r2, h):
-    """sphere (radius r1, centred on the frustum end of radius r1) against the frustum profile rho_F(z) = r1 + (r2 - r1) z / h:
-    the frustum profile is the smaller one on [0, m], the sphere profile on [m, min(h, r1)]
-    (m = 0 if the frustum does not taper; else the crossing z* = 2 r1 (r1 - r2) h / (h^2 + (r1 - r2)^2), cut at h).
-    Justified by lemma `sf-split-point-is-the-profile-crossing`."""
-    zs = 2 * r1 * (r1 - r2) * h / (h * h + (r1 - r2) * (r1 - r2))
-    return z3.If(r2 >= r1, z3.RealVal(0), zmin(zs, h))
-
-
-def V_sf(r1, r2, h):
-    """volume of sphere ∩ frustum sharing centre and end radius r1 = pi * integral over [0, min(h, r1)] of min(rho_S, rho_F)^2"""
-    m = sf_split(r1, r2, h)
-    top = zmin(h, r1)
-    return PI * (G(r1, r2, h, m) - G(r1, r2, h, 0)) + PI * (F(r1, top) - F(r1, m))
 
 
 # VSF is V_sf behind an opaque name: callers (leave) reason with the NAME only (linear arithmetic over atoms); the defining
@@ -57,6 +37,7 @@ VSF = z3.Function("V_sphere_frustum", z3.RealSort(), z3.RealSort(), z3.RealSort(
 
 
 VFR = z3.Function("V_frustum", z3.RealSort(), z3.RealSort(), z3.RealSort(), z3.RealSort())  # opaque name of V_fr_tot
+VSPH = z3.Function("V_sphere", z3.RealSort(), z3.RealSort())  # opaque name of V_sphere (whole-tree statement)
 
 
 # ghost vocabulary for the Monte-Carlo objects: SDF handles are terms, MU is "the measure of the set the handle denotes"
@@ -126,25 +107,9 @@ def child_sphere(S, k):
 
 
 SFI_KEY = f"{VO}:VolSphereFrustumConeIntersection._get_volume"
-SFI_ASSUMED = "assumed-taper-half:" + SFI_KEY  # registry slot of the ASSUMED contract (not found by call-site lookup)
-
-
-class _Scoped(dict):
-    """registry view used while ONE carrier variant is verified: `key` resolves to the given contract instead"""
-
-    def __init__(self, base, key, contract):
-        super().__init__(base)
-        self[key] = contract
-
 
 def leave_setup(nchildren, equal_radii=False):
     def setup(S):
-        eng = S.eng
-        base = getattr(eng, "_c14_base_registry", None) or eng.registry
-        eng._c14_base_registry = base
-        # general radii: one end of every frustum tapers away from its sphere; that half of the sphere/frustum intersection
-        # is only ASSUMED (see register).  equal radii: nothing tapers, the verified contract is used.
-        eng.registry = base if equal_radii else _Scoped(base, SFI_KEY, base[SFI_ASSUMED])
         t = sym_tree(S, "t")
         n = node_obj(S, t)
         ch = PList([child_sphere(S, k) for k in range(nchildren)])
@@ -266,22 +231,15 @@ def sfi_setup(end, taper):
     return setup
 
 
-def _sfi_pre(widening_only):
-    def pre(E, v, o):
-        """the sphere is centred on one end of the frustum with that end's radius (exactly), positive radii, distinct end centres
-        [verified contract only: and the frustum does not taper away from the sphere's end]"""
-        s, f = v["self"].fields["obj1"], v["self"].fields["obj2"]
-        cs, rs = sphere_geom(s)
-        c1, c2 = [R(x) for x in f.fields["c1"].items], [R(x) for x in f.fields["c2"].items]
-        r1, r2 = R(f.fields["r1"]), R(f.fields["r2"])
-        at1 = z3.And(rs == r1, *[a == b for a, b in zip(cs, c1)])
-        at2 = z3.And(rs == r2, *[a == b for a, b in zip(cs, c2)])
-        cl = [z3.Or(at1, at2), r1 > 0, r2 > 0, d2(c1, c2) > 0]
-        if widening_only:
-            cl.append(r1 + r2 - rs >= rs)
-        return z3.And(*cl)
-
-    return pre
+def sfi_pre(E, v, o):
+    """the sphere is centred on one end of the frustum with that end's radius (exactly), positive radii, distinct end centres"""
+    s, f = v["self"].fields["obj1"], v["self"].fields["obj2"]
+    cs, rs = sphere_geom(s)
+    c1, c2 = [R(x) for x in f.fields["c1"].items], [R(x) for x in f.fields["c2"].items]
+    r1, r2 = R(f.fields["r1"]), R(f.fields["r2"])
+    at1 = z3.And(rs == r1, *[a == b for a, b in zip(cs, c1)])
+    at2 = z3.And(rs == r2, *[a == b for a, b in zip(cs, c2)])
+    return z3.And(z3.Or(at1, at2), r1 > 0, r2 > 0, d2(c1, c2) > 0)
 
 
 def sfi_post(E, v, o):
@@ -325,39 +283,272 @@ def _make_fuv_usable_at_call_sites(Rg):
     c._c14_wrapped = True
 
 
+# ===========================================================================
+# _get_volume_frustum_cone: the summation over the tree (traverse client rule)
+#
+# Ghost vocabulary of the whole-tree statement (definitional axioms are stated by `tree_vocabulary`, which is the
+# ghost_entry of the contracts below: it runs in the carrier's own proof and at call sites alike):
+#   NK(x), KID(x, k), RANK(c)  children of node x in table order (the order in which `traverse` hands their values to `leave`)
+#   NDIST(a, b)                distance between the centres of nodes a and b (the non-negative root of the squared distance);
+#                              its defining property NDIST >= 0, NDIST^2 = |a - b|^2 is instantiated by hand at the edges the
+#                              leave step looks at (a nonlinear fact under a quantifier would poison every obligation)
+#   SHARE(a, x)                what node x contributes at accuracy level a: sphere(x) + [level >= 2] sum over its child edges of the frustum
+#                              - [level >= 3] the two sphere/frustum intersections of each child edge
+#                              - [level >= 5] the Monte-Carlo terms (pairs of child frusta outside the node's sphere)
+#   SUMV(a, S)                 sum of SHARE(a, .) over a finite node set S:  SUMV(a, {}) = 0,  SUMV(a, S + x) = SUMV(a, S) + SHARE(a, x) for x not in S
+# The level is an ARGUMENT of SHARE / SUMV: a caller that hands a different level to the worker than the one its own clause speaks
+# about gets two unrelated sums, never one symbol with two definitions.
+MAXK = 3  # numbers of children the leave step is run for: 0..MAXK (that no node has more is a precondition, proved at the call)
+_B = z3.BoolSort()
+NK = z3.Function("children_count", _I, _I)
+KID = z3.Function("child", _I, _I, _I)
+RANK = z3.Function("child_rank", _I, _I)
+NDIST = z3.Function("node_distance", _I, _I, _Re)
+SHARE = z3.Function("node_share", _I, _I, _Re)
+SUMV = z3.Function("sum_of_node_shares", _I, z3.ArraySort(_I, _B), _Re)
+MCV = z3.Real("monte_carlo_only_estimate")  # what the (assumed) level-10 worker returns
+EMPTY = z3.K(_I, z3.BoolVal(False))
+
+
+def tpos(t, x):
+    return [z3.Select(col(t, a).arr, x) for a in "xyz"]
+
+
+def trad(t, x):
+    return z3.Select(col(t, "r").arr, x)
+
+
+NODES = z3.Const("all_nodes_of_the_table", z3.ArraySort(_I, _B))  # the node set {0, ..., n-1} (defined in tree_vocabulary)
+
+
+def share_term(t, acc, x, nk=NK, kid=KID):
+    """SHARE(acc, x) written out for a node with at most MAXK children"""
+    zero = z3.RealVal(0)
+    cn, rn = tpos(t, x), trad(t, x)
+    ks = [kid(x, z3.IntVal(j)) for j in range(MAXK)]
+    geo = [(tpos(t, c), trad(t, c), NDIST(x, c)) for c in ks]
+    has = [nk(x) > j for j in range(MAXK)]
+    frusta = sum((z3.If(has[j], VFR(rn, rc, d), zero) for j, (cc, rc, d) in enumerate(geo)), zero)
+    ends = sum((z3.If(has[j], VSF(rn, rc, d) + VSF(rc, rn, d), zero) for j, (cc, rc, d) in enumerate(geo)), zero)
+    fr_h = [SDF_FRUSTUM(*cn, *cc, rn, rc) for cc, rc, d in geo]
+    sp_h = SDF_SPHERE(*cn, rn)
+    pairs = sum((z3.If(has[j], MU(SDF_OP["subtract"](SDF_OP["intersect"](fr_h[i], fr_h[j]), sp_h)), zero)
+                 for i in range(MAXK) for j in range(i + 1, MAXK)), zero)
+    return VSPH(rn) + z3.If(acc >= 2, frusta, zero) - z3.If(acc >= 3, ends, zero) - z3.If(acc >= 5, pairs, zero)
+
+
+def tree_vocabulary(E, old):
+    """DEFINITIONS of the ghost symbols over the entry state (each symbol provably exists on any table: children can be
+    enumerated in table order, a distance is the non-negative root of a sum of squares, a finite sum is a fold)."""
+    t, acc = old["tree"], to_z3(old["accuracy"], "int") if not isinstance(old["accuracy"], str) else None
+    if acc is None:
+        acc = z3.IntVal({"low": 3, "middle": 5, "high": 8}.get(old["accuracy"], 0))
+    key = ("c14-vocabulary", col(t, "pid").uid, acc.sexpr())
+    if any(isinstance(k, tuple) and k and k[0] == "c14-vocabulary" and k[1] != key[1] for k in E.ghost):
+        from pyvc.engine import Unsupported
+
+        raise Unsupported("C14 vocabulary: two different trees in one proof")
+    if key in E.ghost:
+        return
+    E.ghost[key] = True
+    n, P = nof(t), col(t, "pid").arr
+    x, c, k, k2 = (z3.Int(fresh_name(a)) for a in ("x", "c", "k", "m"))
+    Rn = lambda a: z3.And(a >= 0, a < n)
+    sel = z3.Select
+    # children in table order (same axioms as pyvc/traverse_rule.py states for its per-call functions)
+    E.assume(z3.ForAll([x], NK(x) >= 0))
+    E.assume(z3.ForAll([x, k], z3.Implies(z3.And(0 <= k, k < NK(x)), z3.And(Rn(KID(x, k)), sel(P, KID(x, k)) == x, RANK(KID(x, k)) == k))))
+    E.assume(z3.ForAll([x, k, k2], z3.Implies(z3.And(0 <= k, k < k2, k2 < NK(x)), KID(x, k) < KID(x, k2))))
+    E.assume(z3.ForAll([c], z3.Implies(z3.And(Rn(c), sel(P, c) >= 0), z3.And(0 <= RANK(c), RANK(c) < NK(sel(P, c)), KID(sel(P, c), RANK(c)) == c))))
+    E.assume(z3.ForAll([x], z3.Implies(Rn(x), SHARE(acc, x) == share_term(t, acc, x))))
+    E.assume(z3.ForAll([x], sel(NODES, x) == Rn(x)))
+    # the fold: SUMV(a, {}) = 0 here; the step equation SUMV(a, S + x) = SUMV(a, S) + SHARE(a, x) (x a node not in S) is instantiated by
+    # `sumv_unfold` at the sets the proof mentions -- a universally quantified ARRAY variable sends the solver's model finder
+    # into a search that ignores its time limit whenever an obligation fails
+    E.assume(SUMV(acc, EMPTY) == 0)
+    E.assumptions.add("ghost definitions (C14 whole-tree statement): children_count / child / child_rank (children in table order), "
+                      "node_distance (non-negative root of the squared centre distance of two nodes; defining property instantiated at the edges of the leave step), node_share (the per-node inclusion-exclusion share, "
+                      f"written out for at most {MAXK} children), sum_of_node_shares (fold of node_share over a finite node set; its step equation instantiated at the sets of the leave step), all_nodes_of_the_table (the set of row positions)")
+
+
+def gvfc_wf(which):
+    from contracts.C04 import depth
+
+    def f(E, v, o):
+        t = v["tree"]
+        n, P, ids = nof(t), col(t, "pid").arr, col(t, "id").arr
+        i = z3.Int(fresh_name("i"))
+        inr = z3.And(i > 0, i < n)
+        if which == "ids-are-positions":
+            return z3.ForAll([i], z3.Implies(z3.And(i >= 0, i < n), z3.Select(ids, i) == i))
+        if which == "node-0-is-the-root-and-parents-exist":
+            return z3.And(z3.Select(P, 0) == -1, z3.ForAll([i], z3.Implies(inr, z3.And(z3.Select(P, i) >= 0, z3.Select(P, i) < n))))
+        if which == "every-node-reaches-the-root":
+            return z3.And(depth(0) == 0, z3.ForAll([i], z3.Implies(inr, z3.And(depth(i) == depth(z3.Select(P, i)) + 1, depth(i) > 0))))
+        if which == "at-most-three-children-per-node":
+            return z3.ForAll([i], z3.Implies(z3.And(i >= 0, i < n), NK(i) <= MAXK))
+        if which == "from-level-3-positive-radii-and-distinct-neighbour-centres":
+            acc = to_z3(v["accuracy"], "int")
+            return z3.Implies(acc >= 3, z3.And(trad(t, 0) > 0, z3.ForAll([i], z3.Implies(inr, z3.And(trad(t, i) > 0, d2(tpos(t, z3.Select(P, i)), tpos(t, i)) > 0)))))
+        raise KeyError(which)
+
+    return (which, f)
+
+
+GVFC_WF = ["ids-are-positions", "node-0-is-the-root-and-parents-exist", "every-node-reaches-the-root", "at-most-three-children-per-node"]
+GVFC_PRE3 = "from-level-3-positive-radii-and-distinct-neighbour-centres"
+
+
+def gvfc_setup(equal_radii=False):
+    def setup(S):
+        t = sym_tree(S, "t")
+        if equal_radii:
+            i = z3.Int(fresh_name("i"))
+            S.assume(z3.ForAll([i], trad(t, i) == trad(t, 0)))
+        return dict(tree=t, accuracy=S.int("accuracy"))
+
+    return setup
+
+
+def gvfc_child_value(E, node):
+    """the value `leave` returned for child `node`.  Ql determines it (centre, radius, handle, cached volume of THE sphere of the
+    node), so it is built from the node term directly (one-point rule) — the same terms the whole-tree statement is written in"""
+    from swcgeom.utils.volumetric_object import VolSphere
+
+    t = E.top_old["tree"]
+    cn, rn = tpos(t, node), trad(t, node)
+    c = NArr((3,), [Sym(a, "real") for a in cn], "real")
+    return Obj(VolSphere, dict(center=c, radius=Sym(rn, "real"), sdf=_handle(SDF_SPHERE(*cn, rn)), volume=Sym(z3.RealVal(4) / 3 * PI * (rn * rn * rn), "real")))
+
+
+def gvfc_Ql(E, v, x, val, ctx):
+    """the value left for node x is THE sphere of node x (centre, radius, SDF handle; its volume cache, if filled, holds the closed form)"""
+    from swcgeom.utils.volumetric_object import VolSphere
+
+    if not (isinstance(val, Obj) and val.cls is VolSphere):
+        return False
+    t = v["tree"]
+    cn, rn = tpos(t, x), trad(t, x)
+    cs, rs = sphere_geom(val)
+    cl = [rs == rn, val.fields["sdf"].z == SDF_SPHERE(*cn, rn)] + [a == b for a, b in zip(cs, cn)]
+    vol = val.fields.get("volume")
+    if vol is not None:
+        cl.append(R(vol) == z3.RealVal(4) / 3 * PI * (rn * rn * rn))
+    E.ghost.setdefault("c14-step-values", []).append((x, val))
+    return z3.And(*cl)
+
+
+def gvfc_J(E, v, ENT, LEFT, ctx):
+    """volume so far = sum of the shares of the nodes left so far"""
+    E.ghost["c14-node-set-of-the-last-J"] = LEFT
+    acc = to_z3(v["accuracy"], "int")
+    sumv_unfold(E, acc, LEFT, nof(v["tree"]))
+    return R(v["volume"]) == SUMV(acc, LEFT)
+
+
+def sumv_unfold(E, acc, S, n):
+    """instance of the defining step equation of SUMV at a set written  S0 + {x}  (a z3 Store of `true`)"""
+    if z3.is_app(S) and S.decl().kind() == z3.Z3_OP_STORE and z3.is_true(S.arg(2)):
+        S0, x = S.arg(0), S.arg(1)
+        E.assume(z3.Implies(z3.And(x >= 0, x < n, z3.Not(z3.Select(S0, x))), SUMV(acc, S) == SUMV(acc, S0) + SHARE(acc, x)))
+
+
+def gvfc_step_hints(E, v, x, ctx):
+    """proof steps of the leave step (each its own obligation): per child, the distance the code computed is NDIST(node, child) and the
+    code's closed form of the frustum volume is the integral form (= the opaque name VFR)"""
+    t = v["tree"]
+    cn, rn = tpos(t, x), trad(t, x)
+    lab = "_get_volume_frustum_cone/traverse/leave/step"
+    steps = []
+    for j, (cz, val) in enumerate(E.ghost.get("c14-step-values", [])):
+        cc, rc = sphere_geom(val)
+        q = d2(cn, cc)
+        y = centre_distance(E, cn, cc)  # the root np.linalg.norm produced (one ghost root per argument polynomial)
+        d = NDIST(x, cz)
+        E.assume(z3.And(d >= 0, d * d == q))  # definition of the ghost function NDIST at this edge (q is a sum of squares)
+        _use(E, "nonneg-roots-of-equal-squares-are-equal", y, d)
+        E.prove(f"{lab}/distance-to-child-{j}-is-the-edge-length", y == d, "annotation")
+        before = list(E.pc)
+        E.assume(VFR(rn, rc, d) == V_fr_tot(rn, rc, d))  # definition of the ghost name
+        _use(E, "frustum-closed-form-is-the-integral-form", rn, rc, d)
+        step = z3.RealVal(1) / 3 * PI * d * (rn * rn + rn * rc + rc * rc) == VFR(rn, rc, d)
+        E.prove(f"{lab}/frustum-{j}-closed-form-is-the-integral-form", step, "annotation")
+        E.pc[:] = before + [step]
+        steps.append(step)
+    before = list(E.pc)
+    E.assume(VSPH(rn) == V_sphere(rn))  # definition of the ghost name
+    step = z3.RealVal(4) / 3 * PI * (rn * rn * rn) == VSPH(rn)
+    E.prove(f"{lab}/sphere-closed-form-is-the-integral-form", step, "annotation")
+    steps.append(step)
+    # what remains (the invariant after the step, the returned value) is linear arithmetic over atoms: the nonlinear hypotheses
+    # (definitions of roots, lemma instances, distinct-centre preconditions) are dropped -- weakening the context is always sound
+    # and keeps a FAILING obligation from sending the solver into nonlinear model search
+    E.pc[:] = [h for h in before if not _nonlinear(h)] + steps
+
+
+def _nonlinear(h):
+    stack, seen = [h], set()
+    while stack:
+        x = stack.pop()
+        if x.get_id() in seen:
+            continue
+        seen.add(x.get_id())
+        if z3.is_quantifier(x):
+            stack.append(x.body())
+            continue
+        if z3.is_app(x):
+            k = x.decl().kind()
+            ch = x.children()
+            if k == z3.Z3_OP_MUL and sum(1 for c in ch if not z3.is_rational_value(c) and not z3.is_int_value(c)) >= 2:
+                return True
+            if k in (z3.Z3_OP_DIV, z3.Z3_OP_IDIV, z3.Z3_OP_MOD) and not (z3.is_rational_value(ch[1]) or z3.is_int_value(ch[1])):
+                return True
+            if k == z3.Z3_OP_POWER:
+                return True
+            stack.extend(ch)
+    return False
+
+
+@_lemma("nonneg-roots-of-equal-squares-are-equal", 2)
+def _roots_equal(a, b):
+    return z3.Implies(z3.And(a >= 0, b >= 0, a * a == b * b), a == b)
+
+
+def gvfc_post(E, v, o):
+    acc = to_z3(o["accuracy"], "int")
+    return z3.If(acc <= 9, R(v["result"]) == SUMV(acc, NODES), R(v["result"]) == MCV)
+
+
+def gvfc_post_hint(E, vars):
+    """the node set the traversal covered (the subtree of node 0, the set the rule's conclusion speaks about) is the set of all nodes"""
+    S_all = E.ghost.get("c14-node-set-of-the-last-J")
+    if S_all is None:
+        return
+    E.prove("_get_volume_frustum_cone/step/traversal-covered-exactly-the-nodes-of-the-table", S_all == NODES, "annotation")
+
+
 def register(Rg: Registry):
     _make_fuv_usable_at_call_sites(Rg)
     Rg.add(f"{VOL}:_get_volume_frustum_cone.<locals>.leave", prop="C14",
-           variants={**{f"{k}-children": leave_setup(k) for k in (0, 1, 2, 3)},
-                     **{f"{k}-children/equal-radii": leave_setup(k, True) for k in (1, 2)}},
+           variants={f"{k}-children": leave_setup(k) for k in (0, 1, 2, 3)},
            requires=[("node-in-range-levels-1-to-9-and-from-level-3-positive-radii-distinct-centres", leave_pre)],
            ensures=[("volume-grows-by-the-nodes-inclusion-exclusion-share", leave_delta),
                     ("returns-the-nodes-sphere", leave_returns_sphere),
                     ("children-untouched", leave_children_kept)],
            options=dict(hints={"post/volume-grows-by-the-nodes-inclusion-exclusion-share": leave_hint}),
            notes="children lists of exactly 0, 1, 2, 3 spheres (variants), everything else symbolic (accuracy 1..9 symbolic). "
-                 "Variants `k-children`: general radii, levels >= 3 RELATIVE to the assumed taper half of the sphere/frustum "
-                 "intersection; variants `k-children/equal-radii`: cylinders, no assumed contract below level 5.")
+                 "General radii; no assumed contract below level 5 (levels >= 5 with >= 2 children: Monte-Carlo objects, assumed).")
 
-    # sphere ∩ frustum, sphere concentric with one end.  VERIFIED where the frustum does not taper away from the sphere's end
-    # (C13 proves that branch of calc_concentric_intersect_volume; here: the dispatch of _get_volume on top of it, modular).
+    # sphere ∩ frustum, sphere concentric with one end, BOTH taper directions: the dispatch of _get_volume on top of C13's verified
+    # contract of calc_concentric_intersect_volume (used modularly: its precondition is an obligation here)
     Rg.add(SFI_KEY, prop="C14",
-           variants={f"sphere-at-{e}-end/widening": sfi_setup(e, False) for e in ("c1", "c2")},
-           requires=[("concentric-with-one-end-and-no-taper-away-from-it", _sfi_pre(True))],
+           variants={f"sphere-at-{e}-end/{nm}": sfi_setup(e, tp) for e in ("c1", "c2") for nm, tp in (("widening", False), ("taper", True))},
+           requires=[("concentric-with-one-end", sfi_pre)],
            returns="real",
            ensures=[("equals-integral-of-the-smaller-profile", sfi_post)],
            lemmas=[sfi_reveal],
            options=dict(exact_tolerances=True, globals_override={"eps": 0}, hints={"post/equals-integral-of-the-smaller-profile": sfi_hint}),
-           notes="taper branch (other end thinner than the sphere's end) NOT reached deductively: see the assumed contract below")
-    # ASSUMED contract (never verified) = the same clause without the no-taper restriction.  Only the `leave` variants with
-    # general radii use it (registry scoped in leave_setup).  What is assumed beyond the verified half: the taper branch of
-    # calc_concentric_intersect_volume (random unit vector, sphere/line intersection, projection) returns V_sf; its scalar
-    # algebra is lemma `taper-branch-formulas-give-V_sf/*`, its vector geometry is covered by the bounded stand-ins C13/C14 only.
-    from pyvc.spec import Contract
-
-    Rg[SFI_ASSUMED] = Contract(SFI_KEY, prop="C14", trusted=True, returns="real",
-                               requires=[("concentric-with-one-end", _sfi_pre(False))],
-                               ensures=[("equals-integral-of-the-smaller-profile", sfi_post)])
+           notes="the closed form itself (both taper directions) is proved in contracts/C13.py")
 
     # ASSUMED contract (never verified): Monte-Carlo volume of a generic SDF object.  "Returns the measure of the set the
     # SDF handle denotes" — sampling error is ignored, so levels >= 5 with >= 2 children are proved RELATIVE to this idealisation.
@@ -365,16 +556,24 @@ def register(Rg: Registry):
            modifies=["self.cache_volume", "self.cache_volume_n_samples"],
            ensures=[("is-the-measure-of-the-denoted-set", lambda E, v, o: z3.And(R(v["result"]) == MU(v["self"].fields["sdf"].z), R(v["result"]) >= 0))])
 
+    # ------------------------------------------------------------------ _get_volume_frustum_cone (the summation)
+    from pyvc.traverse_rule import Rule
+
+    # ASSUMED (sampling): the level-10 worker returns some real, named MCV
+    Rg.add(f"{VOL}:_get_volume_frustum_cone_mc_only", prop="C14", trusted=True, returns="real",
+           ensures=[("is-the-monte-carlo-estimate", lambda E, v, o: R(v["result"]) == MCV)])
+    rule = Rule(gvfc_J, Ql=gvfc_Ql, modifies=[("local", "volume", "real")], leave_kind=gvfc_child_value, leave_arities=list(range(MAXK + 1)),
+                kids=(NK, KID, RANK), ghost_leave=gvfc_step_hints, fork_steps=True)
+    Rg.add(f"{VOL}:_get_volume_frustum_cone", prop="C14",
+           setup=gvfc_setup(False),
+           requires=[gvfc_wf(w) for w in GVFC_WF] + [("level-1-to-10", lambda E, v, o: z3.And(to_z3(v["accuracy"], "int") >= 1, to_z3(v["accuracy"], "int") <= 10)), gvfc_wf(GVFC_PRE3)],
+           ghost_entry=tree_vocabulary, returns="real",
+           ensures=[("volume-is-the-sum-over-all-nodes-of-the-nodes-inclusion-exclusion-share", gvfc_post)],
+           options=dict(traverse_rule=rule, hints={"post/volume-is-the-sum-over-all-nodes-of-the-nodes-inclusion-exclusion-share": gvfc_post_hint}),
+           notes="traverse client rule with J: volume = sum of node_share over the nodes left so far; the leave step runs the REAL closure for "
+                 "0..3 children (that no node has more is a precondition); general radii; no assumed contract below level 5")
+
     # ------------------------------------------------------------------ get_volume (dispatcher)
-    # The analytic worker is seen through an ASSUMED, deliberately empty contract ("returns some real"): what is proved
-    # about get_volume is the argument plumbing only (which level reaches the worker, that its value is passed through).
-    def worker_result(S, fr):
-        r = S.real("worker_volume")
-        S.eng.spec_extra.setdefault("worker_results", []).append(r)
-        return r
-
-    Rg.add(f"{VOL}:_get_volume_frustum_cone", prop="C14", trusted=True, returns=worker_result, ensures=[])
-
     LEVELS = {"low": 3, "middle": 5, "high": 8}
 
     def gv_setup(acc, method="frustum_cone"):
@@ -387,15 +586,32 @@ def register(Rg: Registry):
     def level_of(a):
         return LEVELS.get(a) if isinstance(a, str) else a
 
+    def with_level(clause):
+        """a precondition of the worker, stated for get_volume's own `accuracy` (a level name stands for its number)"""
+        lab, f = clause
+
+        def g(E, v, o):
+            lvl = level_of(v["accuracy"])
+            if lvl is None:
+                return True  # unknown level name: the call raises before the worker is reached
+            return f(E, dict(v, accuracy=lvl), o)
+
+        return (lab, g)
+
     def gv_dispatch(E, v, o):
         calls = [vs for nm, vs in E.call_log if nm == "_get_volume_frustum_cone"]
-        rs = E.spec_extra.get("worker_results", [])
-        if len(calls) != 1 or len(rs) != 1 or calls[0]["tree"].uid != o["tree"].uid:
+        if len(calls) != 1 or calls[0]["tree"].uid != o["tree"].uid:
             return False
         lvl = level_of(o["accuracy"])
         if lvl is None:
             return False
-        return z3.And(to_z3(calls[0]["accuracy"], "int") == to_z3(lvl, "int"), R(v["result"]) == R(rs[0]))
+        return to_z3(calls[0]["accuracy"], "int") == to_z3(lvl, "int")
+
+    def gv_value(E, v, o):
+        lvl = level_of(o["accuracy"])
+        if lvl is None:
+            return False
+        return z3.If(to_z3(lvl, "int") <= 9, R(v["result"]) == SUMV(to_z3(lvl, "int"), NODES), R(v["result"]) == MCV)
 
     def gv_level_ok(E, v, o):
         lvl = level_of(o["accuracy"])
@@ -408,13 +624,16 @@ def register(Rg: Registry):
     Rg.add(f"{VOL}:get_volume", prop="C14",
            variants={"int-level": gv_setup(int), "low": gv_setup("low"), "middle": gv_setup("middle"), "high": gv_setup("high"),
                      "unknown-name": gv_setup("ultra"), "unknown-method": gv_setup(int, "voxel")},
+           requires=[gvfc_wf(w) for w in GVFC_WF] + [with_level(gvfc_wf(GVFC_PRE3))],
+           ghost_entry=tree_vocabulary,
            raises={"AssertionError": ("only-for-a-level-outside-1-to-10", gv_bad_level),
                    "KeyError": ("only-for-an-unknown-level-name", lambda E, v, o: isinstance(v["accuracy"], str) and v["accuracy"] not in LEVELS),
                    "ValueError": ("only-for-an-unknown-method", lambda E, v, o: v["method"] != "frustum_cone")},
-           ensures=[("names-map-to-3-5-8-and-one-call-of-the-worker-with-that-level-and-tree-whose-value-is-returned", gv_dispatch),
+           ensures=[("names-map-to-3-5-8-and-one-call-of-the-worker-with-that-level-and-tree", gv_dispatch),
+                    ("volume-is-the-sum-over-all-nodes-of-the-nodes-inclusion-exclusion-share-at-that-level", gv_value),
                     ("accepted-level-is-1-to-10", gv_level_ok),
                     ("method-is-frustum-cone", lambda E, v, o: o["method"] == "frustum_cone")],
-           notes="level names are concrete strings (variants); integer level symbolic")
+           notes="level names are concrete strings (variants); integer level symbolic; the worker is used through its VERIFIED contract")
 
 
 # ===========================================================================
@@ -447,7 +666,8 @@ def lemmas():
     out.append(("sf-sphere-profile-is-the-smaller-one-after-the-split-point", one + [z >= m, z <= top, m < top], s1(z) <= f1(z)))
     out.append(("sf-without-taper-is-the-spec-of-C13", one + [r2 >= r1], V_sf(r1, r2, h) == C13.V_sf_widening(r1, h)))
 
-    # --- scalar algebra of the taper branch of calc_concentric_intersect_volume (backs the ASSUMED half of the intersection contract):
+    # --- scalar algebra of the taper branch of calc_concentric_intersect_volume (the division form of C13's `taper-case/*` lemmas;
+    #     the code's vector geometry that leads to these formulas is proved in contracts/C13.py):
     # with t* the larger root of the sphere/slant-line quadratic, h1 = t* h, r3 = r1 + t* (r2 - r1), the code's case formulas give V_sf
     cap = lambda r, hh: PI * hh * hh * (3 * r - hh) / 3
     frc = lambda ra, rb, hh: z3.RealVal(1) / 3 * PI * hh * (ra * ra + ra * rb + rb * rb)
